@@ -108,7 +108,335 @@ def all_any(a: Tuple[str, ...], b: Tuple[str, ...]) -> bool:
     return all(x in b for x in a) and not any(x == y for x, y in zip(a, b)) or len(a) >= 3
 '''
 
+SRC2 = '''
+from collections import OrderedDict, defaultdict
+from typing import Dict, List, Optional, Set, Tuple, Union
+from uuid import UUID
+
+
+def count_words(a: Tuple[str, ...]) -> int:
+    d: Dict[str, int] = {}
+    for x in a:
+        if x in d:
+            d[x] = d[x] + 1
+        else:
+            d[x] = 1
+    best = 0
+    for k, v in d.items():
+        if v > best:
+            best = v
+    return best + len(d)
+
+
+def index_of_a(a: Tuple[str, ...]) -> str:
+    d: Dict[str, int] = {}
+    for i, x in enumerate(a):
+        d[x] = i
+    return a[d["a"] - d.get("b", 0)]
+
+
+def group_by_len(a: Tuple[str, ...]) -> int:
+    g: Dict[int, Set[str]] = defaultdict(set)
+    for x in a:
+        g[len(x)].add(x)
+    n = 0
+    for k in g:
+        n = n + k
+    for k in g.keys():
+        n = n + 10
+    return n + len(g) + len(g)
+
+
+def plain_dict_add(a: Tuple[str, ...]) -> int:
+    g: Dict[str, Set[str]] = {}
+    g["a"] = {"z"}
+    for x in a:
+        g[x].add(x)
+    return len(g)
+
+
+def append_all(a: Tuple[str, ...], b: Tuple[str, ...]) -> Tuple[str, ...]:
+    out = []
+    for x in a:
+        if x not in out:
+            out.append(x)
+    return list(b) + out
+
+
+def untyped_set(a: Set[UUID], b: Set[UUID]) -> Set[UUID]:
+    seen = set()
+    for u in a:
+        if u in b:
+            seen.add(u)
+    seen.update(b - a)
+    return seen
+
+
+def chain_eq(a: int, b: int, c: int) -> bool:
+    return a == b == c
+
+
+def shadow(a: Tuple[str, ...], b: Tuple[str, ...]) -> str:
+    x = "init"
+    for x in a:
+        for x in b:
+            if x == "b":
+                break
+    return x
+
+
+def assign_loopvar(a: Tuple[str, ...]) -> int:
+    n = 0
+    for s in a:
+        if s == "a":
+            s = "b"
+        if s == "b":
+            n += 1
+    return n
+
+
+def rebind_iterable(a: Tuple[str, ...]) -> int:
+    n = 0
+    for x in a:
+        a = ("q", x)
+        n += len(a)
+    return n + len(a)
+
+
+def opt_last_pos(a: Tuple[str, ...], x: str) -> int:
+    pos = None
+    for i, y in enumerate(a):
+        if y == x:
+            pos = i
+    if pos is None:
+        return -1
+    return pos + 1
+
+
+def range_max(lo: int, hi: int) -> int:
+    d: Dict[int, int] = {}
+    for i in range(lo, hi):
+        d[i] = hi - i
+    n = 0
+    for i in range(hi):
+        n += 1
+    if len(d.keys()):
+        return max(d.keys()) + len(d) + n
+    return 0 - 1
+
+
+def od_move(a: Tuple[str, ...], x: str) -> Tuple[str, ...]:
+    d: OrderedDict[str, int] = OrderedDict()
+    for i, y in enumerate(a):
+        d[y] = i
+    d.move_to_end(x)
+    out = []
+    for k in d:
+        out.append(k)
+    return out
+
+
+def pair_unpack(a: Tuple[str, ...]) -> int:
+    d: Dict[int, Tuple[str, int]] = {}
+    for i, y in enumerate(a):
+        d[i] = (y, i + 1)
+    n = 0
+    for i in range(len(a)):
+        s, k = d[i]
+        if s == "a":
+            n = n + k
+    return n
+
+
+def nested_pattern(a: Tuple[str, ...], b: Tuple[str, ...]) -> int:
+    n = 0
+    for i, (x, y) in enumerate(zip(a, b)):
+        if x == y:
+            n = n + i + 1
+    return n
+
+
+def prune(a: Tuple[str, ...], b: Tuple[str, ...]) -> int:
+    d: Dict[str, int] = {}
+    for i, x in enumerate(a):
+        d[x] = i
+    e = d.copy()
+    for y in b:
+        if y in e:
+            del e[y]
+    e.update({"zz": 5, "a": 7})
+    f = {k: v for k, v in d.items() if k in b and v > 0}
+    n = 0
+    for k, v in f.items():
+        if k in e and e[k] != v:
+            n += 10
+    return len(d) + len(e) + len(e) + n + len(f) + len(f) + len(f)
+
+
+def del_missing(a: Tuple[str, ...]) -> int:
+    d: Dict[str, int] = {}
+    d["a"] = 1
+    d["b"] = 2
+    for x in a:
+        del d[x]
+    return len(d)
+
+
+def with_default(a: Tuple[str, ...], x: str = "a") -> int:
+    n = 0
+    for y in a:
+        if y == x:
+            n += 1
+    return n
+
+
+def tagged(a: Tuple[str, ...], b: Tuple[str, ...], mode: Optional[str] = None) -> Union[Set[str], List[str]]:
+    if mode is not None and mode not in ("sorted", "merge"):
+        raise ValueError(f"bad mode {mode}")
+    tags = {f"{x}~{x}" for x in a}
+    if mode is None:
+        return tags
+    if mode == "sorted":
+        return sorted(tags)
+    out: List[str] = []
+    out.extend(x for x in a if x not in out)
+    out.extend(y for y in b if y not in out)
+    out.sort()
+    return out
+
+
+def mutate_and_raise(a: Set[UUID], b: Set[UUID]) -> bool:
+    a.update(b)
+    if not b:
+        raise KeyError("empty")
+    a.difference_update(b)
+    if not a:
+        raise ValueError("nothing left")
+    return a.issubset(b)
+'''
+
+SRC3 = '''
+from collections import OrderedDict, defaultdict
+from typing import Any, Dict, Set
+from uuid import UUID
+
+
+class Link:
+    def __init__(self, uuid: UUID) -> None:
+        self.uuid = uuid
+
+
+def link_uuids(q: Any) -> Set[UUID]:
+    out: Set[UUID] = set()
+    groups = []
+    for p in q:
+        if isinstance(p, tuple):
+            if isinstance(p[0], Link):
+                out.add(p[0].uuid)
+                continue
+        groups.append(p)
+    for p in groups:
+        if isinstance(p[0], Link):
+            out.add(p[0].uuid)
+    return out
+
+
+def postponed(q: Any, k: UUID) -> Set[UUID]:
+    waiting = set()
+    for p in q:
+        if isinstance(p[0], Link):
+            if p[1] == p[2]:
+                continue
+            waiting.add(p)
+    out: Set[UUID] = set()
+    for dep_link in waiting:
+        out.add(dep_link[0].uuid)
+    return out
+
+
+class LinkTrekker:
+    def __init__(self) -> None:
+        self.data = defaultdict(set)
+        self.data_ordered = OrderedDict()
+        self.order = OrderedDict()
+
+    def helper(self) -> None:
+        pass
+
+    def bump(self, k: UUID, x: UUID) -> None:
+        if k not in self.order:
+            self.order[k] = {x}
+        else:
+            self.order[k].add(x)
+        self.helper()
+        if x == k:
+            raise ValueError("self dependency")
+        self.order[x].add(k)
+
+    def bump_twice(self, k: UUID) -> None:
+        self.bump(k, k)
+'''
+
 REFUSED = '''
+from collections import OrderedDict, defaultdict
+from typing import Dict
+
+
+def r_iter_built_set(a: Tuple[str, ...]) -> str:
+    s = set()
+    for x in a:
+        s.add(x)
+    last = ""
+    for y in s:
+        last = y
+    return last
+
+
+def r_defaultdict_read(a: Tuple[str, ...]) -> int:
+    g: Dict[str, Set[str]] = defaultdict(set)
+    for x in a:
+        g[x].add(x)
+    n = 0
+    for x in a:
+        if g[x]:
+            n += 1
+    return n
+
+
+def r_store_then_mutate(a: Set[UUID], b: Set[UUID]) -> bool:
+    d: Dict[int, Set[UUID]] = {}
+    d[0] = a
+    a.update(b)
+    return d[0].issubset(b)
+
+
+def r_dict_alias(a: Tuple[str, ...]) -> int:
+    d: Dict[str, int] = {}
+    e = d
+    for x in a:
+        e[x] = 1
+    return len(d)
+
+
+def r_chain_calls(a: Tuple[str, ...]) -> bool:
+    return len(a) == len(a) == 2
+
+
+def r_mutate_loop_element(a: Tuple[str, ...]) -> int:
+    g: Dict[str, Set[str]] = {}
+    for x in a:
+        g[x] = {x}
+    for k, v in g.items():
+        v.add("z")
+    return len(g)
+
+
+def r_list(a: Set[UUID]) -> int:
+    n = 0
+    for u in list(a):
+        n += 1
+    return n
+
 from typing import Set, Tuple
 from uuid import UUID
 
@@ -181,7 +509,24 @@ GOOD = [
     T("only_in_first", [("a", SS), ("b", SS)], SS), T("merge_into", [("a", SS), ("b", SS), ("c", SS)], "bool"),
     T("second_part", [("s", "str")], "str"), T("all_any", [("a", TS), ("b", TS)], "bool"),
 ]
-BAD = [("r_while", [("a", "int")], "int"), ("r_try", [("a", TS)], "str"), ("r_lazy_index", [("a", TS)], "bool"),
+GOOD2 = [
+    T("count_words", [("a", TS)], "int"), T("index_of_a", [("a", TS)], "str"), T("group_by_len", [("a", TS)], "int"),
+    T("plain_dict_add", [("a", TS)], "int"), T("append_all", [("a", TS), ("b", TS)], TS),
+    T("untyped_set", [("a", SS), ("b", SS)], SS), T("chain_eq", [("a", "int"), ("b", "int"), ("c", "int")], "bool"),
+    T("shadow", [("a", TS), ("b", TS)], "str"), T("assign_loopvar", [("a", TS)], "int"), T("rebind_iterable", [("a", TS)], "int"),
+    T("opt_last_pos", [("a", TS), ("x", "str")], "int"), T("range_max", [("lo", "int"), ("hi", "int")], "int"),
+    T("od_move", [("a", TS), ("x", "str")], TS), T("pair_unpack", [("a", TS)], "int"),
+    T("nested_pattern", [("a", TS), ("b", TS)], "int"), T("mutate_and_raise", [("a", SS), ("b", SS)], "bool"),
+    T("prune", [("a", TS), ("b", TS)], "int"), T("del_missing", [("a", TS)], "int"),
+    Target("with_default", "selftest_src.py", None, "with_default", [("a", TS), ("x", "str")], "int", defaults={"x": "'a'"}),
+    Target("tagged", "selftest_src.py", None, "tagged", [("a", TS), ("b", TS), ("mode", "Optional[str]")],
+           "Union[Set[str], List[str]]", defaults={"mode": "None"}),
+]
+BAD = [("with_default", [("a", TS), ("x", "str")], "int"),       # a default value the target does not declare
+       ("r_iter_built_set", [("a", TS)], "str"), ("r_defaultdict_read", [("a", TS)], "int"),
+       ("r_store_then_mutate", [("a", SS), ("b", SS)], "bool"), ("r_dict_alias", [("a", TS)], "int"),
+       ("r_chain_calls", [("a", TS)], "bool"), ("r_mutate_loop_element", [("a", TS)], "int"), ("r_list", [("a", SS)], "int"),
+       ("r_while", [("a", "int")], "int"), ("r_try", [("a", TS)], "str"), ("r_lazy_index", [("a", TS)], "bool"),
        ("r_alias", [("a", SS), ("b", SS)], "bool"), ("r_unknown_name", [("a", "int")], "int"),
        ("r_truthy_and", [("a", TS), ("b", TS)], "bool"), ("r_len_set", [("a", SS)], "int"),
        ("r_mutate_iterated", [("a", SS)], "bool"), ("r_fall_off", [("a", "int")], "int"),
@@ -211,16 +556,138 @@ def enc(v, ann):
         return "[" + "; ".join(cq_str(x) + "%string" for x in v) + "]"
     if ann == SS:
         return "[" + "; ".join(f"{x}%nat" for x in v) + "]"
+    if ann == "Optional[str]":
+        return "None" if v is None else f"(Some {cq_str(v)}%string)"
+    if ann == "Union[Set[str], List[str]]":     # only as an expected result: (is it a set, its elements)
+        return "(" + ("inl " if v[0] else "inr ") + "[" + "; ".join(cq_str(x) + "%string" for x in v[1]) + "])"
     raise KeyError(ann)
 
 
 def domain(ann):
     from uuid import UUID  # noqa: F401
     return {"int": [-1, 0, 1, 2], "bool": [False, True], "str": ["", "a", "x", "z", "y", "a~b", "~xa", "a~x__b~c", "w"],
-            TS: tuples("ab", 3) + [("ab", "a"), ("abc", "", "b")], SS: subsets(3)}[ann]
+            TS: tuples("ab", 3) + [("ab", "a"), ("abc", "", "b")], SS: subsets(3),
+            "Optional[str]": [None, "sorted", "merge", "x"]}[ann]
 
 
-EQ = {"int": "Z.eqb", "bool": "Bool.eqb", "str": "String.eqb", SS: "py_set_eqb Nat.eqb"}
+UNION_EQ = ("(fun x y => match x, y with inl a, inl b => py_set_eqb String.eqb a b | inr a, inr b => py_list_eqb String.eqb a b "
+            "| _, _ => false end)")
+EQ = {"Union[Set[str], List[str]]": UNION_EQ, "int": "Z.eqb", "bool": "Bool.eqb", "str": "String.eqb", SS: "py_set_eqb Nat.eqb", TS: "py_list_eqb String.eqb"}
+
+
+def plan_tests(d: Path, reserved: set) -> int:
+    """round 2: the constructs that need the data model of the planner objects (py2coq.CLASSES, Model/PyObj.v): isinstance
+    narrowing on the queue items, the order-oracle site, a callee that is a parameter, mutation of a field of self (with the
+    (res unit) * self result), a statement call of a translated method"""
+    import re
+    from collections import OrderedDict
+    from uuid import UUID
+    from harness.py2coq import LIST, OBJ
+    (d / "src" / "selftest_plan.py").write_text(SRC3)
+    py2coq._MODULES.clear()
+    mod = types.ModuleType("selftest_plan")
+    exec(compile(SRC3, "selftest_plan", "exec"), mod.__dict__)
+    Tp = lambda n, ps, r, **kw: Target(n, "selftest_plan.py", kw.pop("cls", None), kw.pop("fn", n), ps, r, gen="SrcPlan", **kw)  # noqa: E731
+    q_ty = {"q": LIST(OBJ("QueueItem"))}
+    site = {"dep_link": ("PlannerL.ordk", "PlannerL.site_issue {k}")}
+    fails = 0
+    try:        # the set built by the function is iterated: refused unless the target configures the oracle site
+        py2coq.Fn(Tp("postponed", [("q", "Any"), ("k", "UUID")], "Set[UUID]", types=q_ty), reserved).translate()
+        print("NOT REFUSED: postponed without an oracle site")
+        fails += 1
+    except py2coq.Unsupported as ex:
+        print(f"refused  {'postponed (no site)':24s} {ex}")
+    try:        # a method that is neither a target nor a configured callee
+        py2coq.Fn(Tp("LinkTrekker_bump", [("k", "UUID"), ("x", "UUID")], "None", cls="LinkTrekker", fn="bump",
+                     self_class="LinkTrekker"), reserved).translate()
+        print("NOT REFUSED: bump without its callee")
+        fails += 1
+    except py2coq.Unsupported as ex:
+        print(f"refused  {'bump (callee unknown)':24s} {ex}")
+    targets = [Tp("link_uuids", [("q", "Any")], "Set[UUID]", types=q_ty),
+               Tp("postponed", [("q", "Any"), ("k", "UUID")], "Set[UUID]", types=q_ty, sites=site),
+               Tp("LinkTrekker_bump", [("k", "UUID"), ("x", "UUID")], "None", cls="LinkTrekker", fn="bump", self_class="LinkTrekker",
+                  callees=["helper"]),
+               Tp("LinkTrekker_bump_twice", [("k", "UUID")], "None", cls="LinkTrekker", fn="bump_twice", self_class="LinkTrekker")]
+    saved = list(py2coq.TARGETS)
+    out = [py2coq.PRELUDES["SrcPlan"]]
+    py2coq.DONE.clear()
+    try:
+        py2coq.TARGETS[:] = targets         # bump_twice calls bump: the registry of translated targets is consulted
+        fns = {}
+        for t in targets:
+            if t.name == "LinkTrekker_bump_twice":
+                continue
+            f = py2coq.Fn(t, reserved)
+            out.append(f.translate())
+            py2coq.DONE[t.name] = f
+            fns[t.name] = f
+        try:    # a statement call of a translated method that has a callee parameter of its own: refused
+            py2coq.Fn(targets[3], reserved).translate()
+            print("NOT REFUSED: bump_twice")
+            fails += 1
+        except py2coq.Unsupported as ex:
+            print(f"refused  {'bump_twice':24s} {ex}")
+    finally:
+        py2coq.TARGETS[:] = saved
+        py2coq.DONE.clear()
+    uu = lambda k: UUID(int=k + 1)  # noqa: E731
+    links = {u: mod.Link(uu(u)) for u in (0, 4, 8)}
+    grp = type("G", (), {})
+    items = [("L", 0, 0, 1), ("L", 4, 1, 1), ("L", 8, 2, 0), ("G", 7)]
+
+    def py_item(x):
+        return (links[x[1]], x[2], x[3]) if x[0] == "L" else (grp, frozenset())
+
+    def cq_item(x):
+        return f"PlannerL.PL ({x[1]}, ({x[2]}, {x[3]}))%nat" if x[0] == "L" else f"PlannerL.PG {x[1]}%nat []"
+    queues = [list(p) for n in range(4) for p in itertools.permutations(items, n)]
+    nl = lambda l: "[" + "; ".join(f"{x}%nat" for x in l) + "]"  # noqa: E731
+    terms1, terms2, terms3 = [], [], []
+    for q in queues:
+        r = sorted(u.int - 1 for u in mod.link_uuids([py_item(x) for x in q]))
+        terms1.append(f"py_set_eqb Nat.eqb (link_uuids [{'; '.join(cq_item(x) for x in q)}]) {nl(r)}")
+        r = sorted(u.int - 1 for u in mod.postponed([py_item(x) for x in q], uu(3)))
+        terms2.append(f"py_set_eqb Nat.eqb (postponed PlannerA.ord_id [{'; '.join(cq_item(x) for x in q)}] 3%nat) {nl(r)}")
+    orders = [[], [(0, [4])], [(4, [0]), (0, [8])], [(8, [0, 4])]]
+    for o in orders:
+        for k in (0, 4, 8):
+            for x in (0, 4, 8):
+                lt = mod.LinkTrekker()
+                lt.order = OrderedDict((uu(a), {uu(b) for b in v}) for a, v in o)
+                try:
+                    lt.bump(uu(k), uu(x))
+                    exc = None
+                except Exception as ex:  # noqa: BLE001
+                    exc = type(ex).__name__
+                obs = "[" + "; ".join(f"({a.int - 1}%nat, {nl(sorted(b.int - 1 for b in v))})" for a, v in lt.order.items()) + "]"
+                cq_o = "[" + "; ".join(f"({a}%nat, {nl(v)})" for a, v in o) + "]"
+                call = (f"LinkTrekker_bump (fun s => (Ok tt, s)) {{| PlannerL.t_data := []; PlannerL.t_dor := []; "
+                        f"PlannerL.t_order := {cq_o} |}} {k}%nat {x}%nat")
+                pat = f"Raise {exc}" if exc else "Ok _"
+                terms3.append(f"match {call} with ({pat}, s) => PlannerL.amap_exact_eqb (PlannerL.t_order s) {obs} | _ => false end")
+    checks = [("link_uuids", terms1), ("postponed", terms2), ("LinkTrekker_bump", terms3)]
+    for name, terms in checks:
+        out.append(f"Definition bad_{name} : list nat := map fst (filter (fun p => negb (snd p)) (combine (seq 0 {len(terms)}) [\n  "
+                   + ";\n  ".join(terms) + "])).\n")
+    out.append("Eval vm_compute in (" + ", ".join(f"bad_{n}" for n, _ in checks) + ").\n")
+    v = d / "selftest_plan.v"
+    v.write_text("\n".join(out))
+    vlib.make_targets(["Model/PySem.vo", "Model/PlannerL.vo", "Model/PyObj.vo"])
+    rc, res = vlib.sh(["coqc"] + vlib.coq_project_args() + [str(v)], 900, cwd=d)
+    if rc != 0:
+        print("coqc FAILED on the generated planner definitions:\n" + res[-3000:])
+        return fails + 1
+    m = re.search(r"=\s*\((.*)\)\s*:", res, re.S)
+    lists = re.findall(r"\[([^\]]*)\]", m.group(1)) if m else []
+    if len(lists) != len(checks):
+        print("cannot parse:", res[-1000:])
+        return fails + 1
+    for (name, terms), l in zip(checks, lists):
+        bad = [int(x) for x in re.findall(r"\d+", l)]
+        print(f"{'DIFFERS ' if bad else 'agrees  '} {name:16s} {len(terms)} inputs" + (f"  first differing case {bad[0]}" if bad else ""))
+        fails += bool(bad)
+    return fails
 
 
 def main() -> int:
@@ -229,7 +696,7 @@ def main() -> int:
     (d / "src").mkdir(parents=True, exist_ok=True)
     fails = 0
     # ---- refused
-    (d / "src" / "selftest_src.py").write_text(REFUSED + SRC)
+    (d / "src" / "selftest_src.py").write_text(REFUSED + SRC + SRC2)
     py2coq.ROOT[0] = d / "src"
     py2coq._MODULES.clear()
     reserved = py2coq._model_globals()
@@ -243,9 +710,10 @@ def main() -> int:
     # ---- translated and compared with CPython
     mod = types.ModuleType("selftest_src")
     exec(compile(SRC, "selftest_src", "exec"), mod.__dict__)
+    exec(compile(SRC2, "selftest_src2", "exec"), mod.__dict__)
     out = [py2coq.PRELUDE, "Open Scope string_scope.\nOpen Scope list_scope.\nOpen Scope Z_scope.\n"]
     checks = []
-    for t in GOOD:
+    for t in GOOD + GOOD2:
         f = py2coq.Fn(t, reserved)
         out.append(f.translate())
         mutated = f.mutated
@@ -258,9 +726,21 @@ def main() -> int:
                 exc = None
             except Exception as ex:  # noqa: BLE001
                 r, exc = None, type(ex).__name__
-            back = lambda v, a: sorted(u.int - 1 for u in v) if a == SS else v  # noqa: E731
+            back = lambda v, a: (sorted(u.int - 1 for u in v) if a == SS else list(v) if a == TS  # noqa: E731
+                                 else (isinstance(v, set), sorted(v) if isinstance(v, set) else list(v)) if a.startswith("Union") else v)
             call = f"{t.name} " + " ".join(enc(v, a) for v, (_, a) in zip(args, t.params))
-            if f.partial:
+            if f.partial and mutated:       # (res R) * the mutated parameters: they are left behind when it raises, too
+                pat = ", ".join([f"m{k}" for k in range(len(mutated))])
+                conj = []
+                for k, p in enumerate(mutated):
+                    i = [q for q, _ in t.params].index(p)
+                    conj.append(f"py_set_eqb Nat.eqb m{k} {enc(back(pyargs[i], SS), SS)}")
+                if exc:
+                    terms.append(f"match {call} with (Raise {exc}, {pat}) => {' && '.join(conj)} | _ => false end")
+                else:
+                    conj.insert(0, f"{EQ[t.returns]} v {enc(back(r, t.returns), t.returns)}")
+                    terms.append(f"match {call} with (Ok v, {pat}) => {' && '.join(conj)} | _ => false end")
+            elif f.partial:
                 if exc:
                     terms.append(f"match {call} with Raise {exc} => true | _ => false end")
                 else:
@@ -298,6 +778,7 @@ def main() -> int:
         bad = [int(x) for x in re.findall(r"\d+", l)]
         print(f"{'DIFFERS ' if bad else 'agrees  '} {name:16s} {len(cases)} inputs" + (f"  first differing input {cases[bad[0]]}" if bad else ""))
         fails += bool(bad)
+    fails += plan_tests(d, reserved)
     print("selftest", "FAILED" if fails else "ok")
     return 1 if fails else 0
 
